@@ -78,30 +78,12 @@ func (j *Job) Cancel() {
 	if j == nil || j.done == nil {
 		return
 	}
-	if j.Status >= StatusCompleted {
-		// Something happened and didn't close done.
-		if j.done != nil {
-			// NOTE(dij): I don't think this will panic, but I need to test to
-			//            be 100% sure.
-			close(j.done)
-		}
-		return
-	}
 	j.s.lock.Lock()
-	if j.s.jobs == nil || len(j.s.jobs) == 0 {
-		close(j.done)
-		j.Status, j.done = StatusCanceled, nil
-		// NOTE(dij): We're using the Session Mutex to protect all Jobs since it's
-		//            the only non-OOB place we'd cancel em at.
+	if v, ok := j.s.jobs[j.ID]; !ok || v != j {
+		// Not pending anymore: a result was (or is being) recorded for this Job
+		// by the Session, which also releases the waiters. Closing here too
+		// would close 'done' twice.
 		j.s.lock.Unlock()
-		return
-	}
-	if _, ok := j.s.jobs[j.ID]; !ok {
-		close(j.done)
-		j.Status, j.done = StatusCanceled, nil
-		j.s.lock.Unlock()
-		// NOTE(dij): I know this does a lot of work while the Mutex is spinning,
-		//            but it stays in sync.
 		return
 	}
 	j.s.jobs[j.ID] = nil
